@@ -13,12 +13,12 @@ NOTE_PARTIAL = ("the theorems in coq/fs/%s.v are about named mechanisms of the l
                 "proved lemmas + trace-exact correspondence + spec oracle on the implementation")
 
 PROOF_LEVEL = {
-    "C11": "C11x_history_model (the same statement over the extended alphabet FsExt.xop, lockstep_xstep for every extended operation; with the observation C11x_drop_swallows_fault: a File dropped while its flush hits the fault answers nothing - impl Drop discards the DeviceError, the handle is gone, the unflushed bytes are lost - documented behaviour of Drop, stated as a theorem) and C11_history_model is a theorem about the layer-B model: in any history run with ONE device fault armed at any device-call index, the calls before the one that hits it are unaffected, and that call returns Err (never Ok / fabricated / Panic / OutOfFuel), keeps lock and handle tables (CloseFile consumes its handle), leaves a crash-sound medium with unique names and every non-targeted file intact, and - for calls that never write - a state of the invariant so that the retry is a fault-free call; every handle can be closed afterwards. Proved per operation (step_fault, 26 operations) from lockstep_step (the armed run agrees with the fault-free run up to the armed device call). Several faults per history and arbitrary calls after a fault are covered at run time only: this check injects a fault at every device-call index of every script and random multi-fault sequences, and judges the implementation with the python oracle (error reported, not wedged, retry answers, no duplicate names, bystanders intact)",
+    "C11": "C11m_history_any (ANY fault schedule - any number of armed device-call indices, several inside one call - as long as every fault that fires does so inside a call of the never-writing class: each call is either exactly the fault-free call from the state it starts in, or returns Err with medium and tables unchanged; fs_inv after every call; C11m_retry_any / C11m_retry_find / C11m_retry_iter: the retried lookup / listing returns the C06 answer), C11x_history_model (the same statement over the extended alphabet FsExt.xop, lockstep_xstep for every extended operation; with the observation C11x_drop_swallows_fault: a File dropped while its flush hits the fault answers nothing - impl Drop discards the DeviceError, the handle is gone, the unflushed bytes are lost - documented behaviour of Drop, stated as a theorem) and C11_history_model is a theorem about the layer-B model: in any history run with ONE device fault armed at any device-call index, the calls before the one that hits it are unaffected, and that call returns Err (never Ok / fabricated / Panic / OutOfFuel), keeps lock and handle tables (CloseFile consumes its handle), leaves a crash-sound medium with unique names and every non-targeted file intact, and - for calls that never write - a state of the invariant so that the retry is a fault-free call; every handle can be closed afterwards. Proved per operation (step_fault, 26 operations) from lockstep_step (the armed run agrees with the fault-free run up to the armed device call). Several faults per history and arbitrary calls after a fault are covered at run time only: this check injects a fault at every device-call index of every script and random multi-fault sequences, and judges the implementation with the python oracle (error reported, not wedged, retry answers, no duplicate names, bystanders intact)",
     "C01": "C01x_history_model (the same over the extended alphabet FsExt.xop: iterate_dir_lfn, wrapper drops, change_dir, File::length/offset/is_eof; xspec_run on top of spec_step) and C01_history_model is a theorem about the layer-B model: for any history of API calls (all 26 operations interleaved, any number of files, every outcome) an executable byte-array spec predicts every read/length/offset/eof/seek/flush/close result and ends with the API's view of every file, position by position (writes splice, truncation empties, append starts at the end, one key per write = isolation); step_content proved per operation; D23 (clip at 4 GiB - 1) is encoded in the spec as the crate behaves and recorded as a finding. The run-time oracle replays the byte-array model on the implementation's results",
     "C02": "C02x_history_model / C02x_flushed_stays_model / C02x_untouched_history_model (extended alphabet; the flush may be XDropFile), C02_drop_is_close (impl Drop for File = a close whose result is discarded: same state, same medium, the flush relation of CloseFile) and C02_history_model / C02_flushed_stays_model / C02_untouched_history_model are theorems about the layer-B model: what a fresh mount of the raw medium shows (disk_view, a function of the raw disk) at the slot of a flushed/closed file is exactly the API's view at the flush - name, attribute, creation time, modification time = rounded clock of the last write, bytes - until a later call modifies that file; untouched files and untouched raw directory slots are unchanged through any history. Recorded findings: D24 (zero creation-date fields re-encoded) and D29 (0xE5 names). The run-time oracle re-reads the implementation's medium with an independent FAT reader",
     "C10": "C10x_history / C10x_region_history (the same over the extended alphabet FsExt.xop: the crashed media of an extended call are those of its base call, xcrash_disks_base) and C10_history is a theorem about the layer-B model: in any history of API calls, the medium after every prefix of the block-write sequence of every call (read off the device log; writes atomic and ordered) satisfies the crash invariant crash_inv (tree over the raw disk, unique names, clean tails, dot entries, chains sound and pairwise disjoint, sub-directories with initialised clusters; residue = lost chains and one stale size), whatever the free clusters held; step_crash proved for all 26 operations and outcomes. The extracted sound decider crash_inv_fast and the independent python checker both run on the implementation's crashed media. Not covered by a theorem: that the mount call itself succeeds on the crashed medium (region theorem: MBR/boot sector unchanged)",
     "C09": "C09x_history (the same over the extended alphabet FsExt.xop; a drop of a handle on the file counts as targeting it) and C09_history is a theorem about the layer-B model: a file present on the medium (path, entry, bytes) is present unchanged between calls and on every crashed medium of every later call of any history until a call targets it (op_targets); step_keeps_flushed proved for all 26 operations; with the C02 flush theorem (a successful flush/close puts exactly the API's view on the medium) this is the property for the model. The python oracle replays every prefix of the implementation's write log and re-reads flushed files with an independent reader",
-    "C16": "C16x_history / C16x_history_flush (the same over the extended alphabet FsExt.xop: a dropped dirty File stores the record like a closed one) and C16_history (mirroring of every FAT copy, truthful-stays-truthful, unknown-stays-unknown, hint unknown or in range - after every call of every history of API calls) and C16_history_flush (the FAT32 information sector after a flush/close of a dirty file holds exactly the in-memory record: the number of free FAT entries when the count was truthful, untouched when unknown) are theorems about the layer-B model; the mount code establishes the hint range (C16_mount_hint_in_range, D40 repaired); no call panics or fails for want of space while a free entry exists whatever record was found at mount (C03_history, PrAlloc/PrCount). Recorded finding: stale-hint-kept",
+    "C16": "recorded finding three-fats (C16_three_fats_refuted: a valid volume with BPB_NumFATs >= 3 mounts with no second FAT recorded, update_fat then writes copy 0 only); for the FAT copy the volume record knows (complete for 1 and 2 FATs): C16x_history / C16x_history_flush (the same over the extended alphabet FsExt.xop: a dropped dirty File stores the record like a closed one) and C16_history (mirroring of every FAT copy, truthful-stays-truthful, unknown-stays-unknown, hint unknown or in range - after every call of every history of API calls) and C16_history_flush (the FAT32 information sector after a flush/close of a dirty file holds exactly the in-memory record: the number of free FAT entries when the count was truthful, untouched when unknown) are theorems about the layer-B model; the mount code establishes the hint range (C16_mount_hint_in_range, D40 repaired); no call panics or fails for want of space while a free entry exists whatever record was found at mount (C03_history, PrAlloc/PrCount). Recorded finding: stale-hint-kept",
     "C03": "C03s_history (sessions: for a manager with MAX_VOLUMES = 1 - the crate's default - OpenVol / CloseVol / Drop of a Volume are INSIDE the history: any number of mount / use / unmount cycles over the full extended alphabet keeps the session invariant - mounted: fs_inv with a record that is a relabel of the reference geometry, unmounted: a fresh manager over a medium with disk_inv and the information-sector signatures, so that the next mount succeeds -, no call panics, every write lies in a region of the volume; C03s_from_init starts it from init_state on a decider-accepted medium), C03x_history (the same for the extended alphabet FsExt.xop: + iterate_dir_lfn, Drop of the File / Directory wrappers, Directory::change_dir - whose unwrap is proved unreachable -, the expect()ing File::length/offset/is_eof under the guard that the wrapper's handle is open) and C03_history / C03_after_every_call / C03_sound_after_history are theorems about the layer-B model for every history of API calls (all 26 operations, every outcome incl. refusals, DiskFull and NotEnoughSpace half-way failures): the global invariant fs_inv - directory tree over the raw disk, unique names, clean tail after the end marker, dot entries, chains in range / acyclic / end-marked / never through free-reserved-bad entries / pairwise disjoint / long enough for the size, pending chains of open files - holds after every call. Scope stated in the theorems: one mounted volume, no device faults, names outside the recorded class D29, fewer than 2^32 handle generations. The tie to the crate is the trace-exact correspondence; the extracted decider fs_inv_b (sound: fs_inv_b_sound) and the independent python checker both run on the implementation's images",
     "C04": "C04_history is a theorem about the layer-B model for every history of API calls: the complete device-write list lies in the regions of the volume (FAT copies, FAT16 root region, data area, FAT32 information sector; C04_regions_not_outside: never MBR, boot sector, other partition, past the last cluster); C04_mount_layout / C04_open_volume_layout derive the region map from the checks of the mount code; per-call byte frames (slot, FAT entry, high nibble, info-sector fields, data range) are the C04_*_frame theorems. Recorded finding: the partition size is not compared with the BPB total (D38)",
     "C05": "C05_history (after any history of API calls with no file left open, in-use clusters = clusters on the chains of the live tree), C05_used_is_tree_and_pending (with open files: plus their pending chains), C05_delete_frees, C05_capacity (exactly free_entries allocations succeed, then NotEnoughSpace with nothing changed), C05_fill_free_refill for every number of cycles, and mgr_write_spec (Ok / DiskFull with exactly the stored prefix readable / NotEnoughSpace) are theorems about the layer-B model for all inputs",
@@ -466,10 +466,10 @@ def c02_oracle(sc):
                 out.append("%s: is a directory on the medium" % path)
             elif e.size != len(want) or (e.data or b"") != want:
                 out.append("%s: medium holds %d bytes, flushed contents have %d bytes%s" % (path, e.size, len(want), "" if e.size != len(want) else " (contents differ)"))
-            elif path in sp.flushed and path in sp.wstamp:
-                # written in this history and flushed afterwards: modification time = clock value at the last write
-                # (FAT encoding, two-second resolution), and the entry is marked as modified (archive attribute)
-                wd, wt = O.fat_stamp(sp.wstamp[path])
+            elif path in sp.flushed and path in sp.wstamp and sp.flushed[path][1] > sp.wstamp[path][1]:
+                # written in this history and flushed AFTER the last write: modification time = clock value at the last
+                # write (FAT encoding, two-second resolution), and the entry is marked as modified (archive attribute)
+                wd, wt = O.fat_stamp(sp.wstamp[path][0])
                 if (e.mdate, e.mtime) != (wd, wt):
                     out.append("%s: modification time on the medium is %04x/%04x, the clock value at the last write encodes as %04x/%04x" % (path, e.mdate, e.mtime, wd, wt))
                 elif not (e.attr & 0x20):
@@ -558,9 +558,14 @@ def per_op_image_checks(run, env, sc, want):
             out += c04_writes(tr, k, g, prev, dev, sc)
             out += c04_frames(tr, k, g, prev)
         if wrote or k == 0:
-            if "fsck" in want:
+            if "fsck" in want and not sc.get("faults"):
                 probs, tree, owned = fatck.fsck(dev, g, read_data=False)
                 out += ["after op %d (%s): %s" % (k, " ".join(tr.ops[k][:3]), p) for p in probs]
+            elif "fsck" in want:
+                # a history with an injected device fault: a call that failed half-way leaves what a power cut leaves
+                # (lost clusters, a size not yet updated) - everything else must still be sound
+                probs = fatck.crash_ck(dev, g)
+                out += ["after op %d (%s), in a history with a device fault at call index %s: %s" % (k, " ".join(tr.ops[k][:3]), sc["faults"], p) for p in probs]
             if "mirror" in want:
                 bad = fatck.fat_copies_equal(dev, g)
                 if bad:
@@ -690,6 +695,10 @@ def check_C03(run, replay=None):
     F.std_scenarios(env, rng, n // 8, prof, nops=(20, 50), img_kw=dict(big_dir=True, free_left=2))
     F.std_scenarios(env, rng, max(n // 10, 4), fsgen.profile(weights=dict(mkdir=10, opendir=6, open=10, write=8, close=6)), nops=(15, 35), want=["f32_root5"], img_kw=dict(free_left=12), per_image=2)
     grow_scripts(env, rng, max(n // 10, 4), big=True)
+    # histories with ONE transient device fault ("after every API call returns (success or error)"): the failed call may
+    # leave what a power cut leaves, nothing worse, and the calls after it must not make it worse
+    F.std_scenarios(env, rng, max(n // 5, 10), fsgen.profile(weights=dict(write=14, open=12, close=6, delete=5, mkdir=5, flush=3, read=3, seek=2, find=2, iter=2, bad=0, remount=0, io=0)),
+                    nops=(18, 40), per_image=2, faults_fn=lambda r, ops: [8 + r.below(160)])
     env.run_all(writes=True)
     bad = 0
     for sc in env.scripts:
@@ -700,7 +709,7 @@ def check_C03(run, replay=None):
             bad += report_oracle(run, env, sc, probs, "the medium is not a well-formed FAT volume after a call returned")
     common_tail(run, env, run.coverage.get("theorems", []), oracle=lambda sc: per_op_image_checks(run, env, sc, {"fsck"}),
                 what="the medium is not a well-formed FAT volume after a call returned")
-    small = [sc for sc in env.scripts if sc["meta"].get("N", 0) <= 6000]
+    small = [sc for sc in env.scripts if sc["meta"].get("N", 0) <= 6000 and not sc.get("faults")]
     coq_fsck(run, env, small if run.tier == "thorough" else small[:48], "the medium is not a well-formed FAT volume after a call returned")
     return finish(run, env, "C03", "histories incl. failing calls on all geometries, volumes with 0-3 free clusters, full FAT16 roots, multi-cluster directories; oracle = independent structural checker (gen/fatck.py fsck: chains in range/acyclic/terminated/disjoint/long enough, unique names, dot entries, nothing after the end marker) on the implementation's medium after every call that wrote")
 
@@ -878,7 +887,7 @@ def check_C05(run, replay=None):
     F.std_scenarios(env, rng, n // 4, prof, nops=(20, 50), img_kw=dict(free_left=3))
     # fill / delete / refill cycles on near-full volumes
     for j in range(n // 4):
-        geo = fsgen.geometry(rng, None, ["f16_min", "f16_exact", "f16_slack", "f32_min", "f32_exact", "f16_spc8", "f32_root5", "f16_root500", "f16_root500"])
+        geo = fsgen.geometry(rng, None, ["f16_min", "f16_exact", "f16_slack", "f32_min", "f32_exact", "f16_spc8", "f32_root5", "f16_root500", "f16_root500", "f32_stale0", "f32_stalelow"])
         k = rng.below(5)
         img, meta = fsgen.build_image(rng, geo, populate=1, free_left=k)
         path, dev = env.new_image(img, "cyc%d" % j)
@@ -1168,6 +1177,24 @@ def check_C07(run, replay=None):
         env.add_script("mx%03d" % j, path, lim, ops, 5000, (), meta)
     corpus(env, rng, {"e5-name"})
     two_volume_scripts(env, rng, 4 if run.tier == "quick" else 24)
+    # the same matrix with ONE transient device fault somewhere in it: a call that still answers Ok must obey the table
+    # (a lookup that failed is not permission to create over an existing name)
+    for sc in [x for x in env.scripts if x["name"].startswith("mx") and not x.get("raii")][: (12 if run.tier == "quick" else 120)]:
+        for t in range(3):
+            env.add_script(sc["name"].split("-")[0] + "f", sc["img"], sc["limits"], sc["ops"], sc["id_offset"], [20 + rng.below(700)], sc["meta"], raii=False)
+    # directed: the creating modes on an EXISTING name (root and a multi-block sub-directory) with the fault at each
+    # of the first device calls of the lookup
+    for j, gname in enumerate(["f16_min", "f32_min"]):
+        geo = fsgen.geometry(rng, None, [gname])
+        img, meta = fsgen.build_image(rng, geo, populate=2, big_dir=True, blank_label=False)
+        path, dev = env.new_image(img, "cf%d" % j)
+        meta = dict(meta); meta["dev0"] = dev
+        hx = fsgen.hx
+        for md in ("RWC", "RWCT", "RWCA"):
+            ops = ["openvol %d -> $v" % meta["slot"], "openroot $v -> $r", "open $r %s %s -> $a" % (hx("A.TXT"), md), "close $a",
+                   "open $r %s %s -> $b" % (hx("A.TXT"), md), "close $b", "mkdir $r %s" % hx("A.TXT"), "iter $r"]
+            for fi in range(2, 14 if run.tier == "quick" else 30):
+                env.add_script("cfault", path, (1, 4, 4), ops, 5000, [fi], meta, raii=False)
     env.run_all(writes=True)
     bad = 0
     for sc in env.scripts:
@@ -1209,6 +1236,9 @@ def c07_oracle(sc):
         elif op[0] == "close":
             if okk or e not in ("LockError", "BadHandle"):
                 fopen.pop(op[1], None)
+        elif op[0] in ("open", "delete", "mkdir") and op[1] in dslot and tr.faulted(k) and not okk:
+            pass    # a device call failed during the call and it reported an error: C11's business; a faulted call
+                    # that answers Ok is judged by the table below like any other
         elif op[0] in ("open", "delete", "mkdir") and op[1] in dslot:
             # the directory as it was BEFORE this op: undo this op's writes
             nm = O.unhexname(op[2]); s11 = O.sfn_parse(nm)
@@ -1488,6 +1518,11 @@ def check_C09(run, replay=None):
     # information-sector write leaves), and managers dropped without closing (remount) in the middle of a history
     stale = fsgen.profile(weights=dict(write=12, open=12, close=8, flush=6, delete=4, mkdir=6, read=2, seek=2, bad=0, closevol=0, remount=2, io=0), max_write=3000)
     F.std_scenarios(env, rng, max(n // 4, 8), stale, nops=(20, 45), want=["f32_staleused", "f32_stalehigh", "f32_stalelow"], per_image=2)
+    # volumes that fill up in the middle of a write (the call stores a prefix and fails; a later flush must still put
+    # that prefix's length on the medium), and chains that cross a FAT-sector boundary
+    F.std_scenarios(env, rng, max(n // 4, 8), fsgen.profile(weights=dict(write=16, open=10, close=8, flush=6, delete=2, mkdir=2, read=1, seek=1, bad=0, remount=0, io=0)),
+                    nops=(14, 30), img_kw=dict(free_left=3), want=["f16_min", "f32_min", "f16_spc2", "f16_exact"], per_image=2)
+    F.std_scenarios(env, rng, max(n // 5, 6), stale, nops=(14, 30), img_kw=dict(boundary=True), want=["f16_min", "f32_min"], per_image=2)
     # FAT32 volumes whose only free clusters are numbered above 65535 (both halves of the start cluster matter)
     hi = fsgen.profile(weights=dict(mkdir=10, opendir=8, open=12, write=10, close=8, flush=4, delete=3, read=1, seek=1, bad=0, remount=0, io=0), max_write=1500)
     F.std_scenarios(env, rng, max(n // 5, 6), hi, nops=(20, 40), want=["f32_root5"], img_kw=dict(free_left=12), per_image=3)
@@ -1519,6 +1554,16 @@ def c09_one(sc):
                 out.append("power cut after write %d of op %d (%s): %s flushed at op %d with %d bytes now reads %s"
                            % (j, k, " ".join(tr.ops[k][:3]), path, since, len(data), "missing" if e is None else "%d bytes%s" % (e.size, "" if e.size < len(data) else " with different contents")))
                 return out, npoints
+    # ... and with no later write at all: the medium as the history leaves it (a flush that reported success but put
+    # nothing on the medium shows here even when no later call writes, e.g. on a full volume)
+    dev = final_image(sc)
+    for path, (data, since) in timeline.get("final", {}).items():
+        npoints += 1
+        e = O.lookup(dev, g, path)
+        if e is None or e.size < len(data) or (e.data or b"")[:len(data)] != data:
+            out.append("at the end of the history (no power cut needed): %s flushed at op %d with %d bytes reads %s on the medium"
+                       % (path, since, len(data), "missing" if e is None else "%d bytes%s" % (e.size, "" if e.size < len(data) else " with different contents")))
+            return out, npoints
     return out, npoints
 
 def durable_timeline(tr, sc):
@@ -1538,6 +1583,7 @@ def durable_timeline(tr, sc):
         after = {p: v for p, v in spk.flushed.items() if p in spk.files}
         timeline[k] = {p: v for p, v in before.items() if p in after and after[p][0] == v[0]}
         before = after
+    timeline["final"] = before      # flushed and unmodified when the history ends
     return timeline
 
 def c10_one(sc):
@@ -1626,6 +1672,9 @@ def check_C10(run, replay=None):
                          max_write=2500)
     F.std_scenarios(env, rng, n // 2, prof, nops=(15, 35), img_kw=dict(dirty_free=48), want=["f16_min", "f16_exact", "f16_spc2", "f32_min", "f32_root5", "f16_slack", "f32_staleused", "f16_root500"])
     F.std_scenarios(env, rng, n // 2, prof, nops=(15, 35), img_kw=dict(dirty_free=48, big_dir=True), want=["f16_min", "f16_spc2", "f32_min", "f32_root5"])
+    # chains that cross a FAT-sector boundary while they grow (link and end mark in different FAT sectors)
+    F.std_scenarios(env, rng, max(n // 4, 8), fsgen.profile(weights=dict(write=16, open=10, close=6, flush=3, mkdir=4, delete=3, seek=1, read=1, bad=0, remount=0, io=0), max_write=3000),
+                    nops=(15, 30), img_kw=dict(boundary=True), want=["f16_min", "f32_min", "f16_spc2", "f32_staleused"], per_image=2)
     grow_scripts(env, rng, max(n // 5, 4), dirty=64)
     env.run_all(writes=True)
     bad = 0
@@ -1673,6 +1722,17 @@ def check_C11(run, replay=None):
                "find $s %s" % hx(last), "find $s %s" % hx("ABSENT.X"), "open $s %s RWCA -> $a" % hx(last), "close $a",
                "open $s %s RWCT -> $b" % hx(last), "close $b", "mkdir $s %s" % hx(last), "opendir $s %s -> $q" % hx("DEEP"), "iter $s"]
         env.add_script("walk%d" % j, path, (1, 4, 4), ops, 5000, (), meta)
+    # directed: a chain that grows across a FAT-sector boundary (the scan for the next free cluster then reads a FAT
+    # sector that is not in the cache); every fault index is enumerated
+    for j, gname in enumerate(["f16_min", "f32_min"]):
+        geo = fsgen.geometry(rng, None, [gname])
+        img, meta = fsgen.build_image(rng, geo, populate=1, boundary=True, blank_label=False)
+        path, dev = env.new_image(img, "walkfar%d" % j)
+        meta = dict(meta); meta["dev0"] = dev
+        hx = fsgen.hx; bpc = meta["spc"] * 512
+        ops = ["openvol %d -> $v" % meta["slot"], "openroot $v -> $r", "open $r %s RWC -> $a" % hx("GROW.A"), "write $a %d 1" % bpc, "write $a %d 2" % bpc,
+               "write $a %d 3" % bpc, "write $a %d 4" % (2 * bpc), "close $a", "mkdir $r %s" % hx("NEWD"), "open $r %s RWC -> $b" % hx("GROW.B"), "write $b %d 5" % bpc, "close $b"]
+        env.add_script("walkfar%d" % j, path, (1, 4, 4), ops, 5000, (), meta)
     base = list(env.scripts)
     env.run_all(scripts=base)
     # a failure injected at every single device-call index (quick: strided), plus random multi-fault schedules
@@ -1740,6 +1800,10 @@ def check_C16(run, replay=None):
     F.std_scenarios(env, rng, n // 2, prof, nops=(20, 50), kind="fat32")
     F.std_scenarios(env, rng, n // 4, prof, nops=(20, 50), kind="fat32", img_kw=dict(free_left=2))
     F.std_scenarios(env, rng, n // 4, prof, nops=(20, 50), kind="fat16")
+    # chains growing across a FAT-sector boundary (link in an even FAT sector, new end mark in the following odd one):
+    # short writes, so that a chain ENDS right behind the boundary when a call returns
+    F.std_scenarios(env, rng, max(n // 4, 10), fsgen.profile(weights=dict(write=16, open=10, close=6, flush=4, delete=2, mkdir=2, read=1, seek=1, bad=0, closevol=1, openvol=1, remount=0, io=0), max_write=1200),
+                    nops=(14, 30), img_kw=dict(boundary=True), want=["f32_min", "f32_exact", "f32_staleused", "f16_min"], per_image=2)
     rollback_scripts(env, rng, 4 if run.tier == "quick" else 16, geos=("f32_min", "f32_exact"))
     # directed: every information-sector variant, allocate and free several clusters, flush and close the volume
     for j, gname in enumerate(["f32_min", "f32_stale0", "f32_stalehigh", "f32_oor", "f32_unkcount", "f32_root5", "f32_exact"] * (1 if run.tier == "quick" else 4)):
@@ -1767,6 +1831,18 @@ def check_C16(run, replay=None):
             ops2 = ["openvol %d -> $v" % meta2["slot"], "openroot $v -> $r", "open $r %s RWA -> $t" % hx("BIGGER.BIN"),
                     "seekstart $t 3", "write $t 4 7", "flush $t", "close $t", "closedir $r", "closevol $v"]
             env.add_script("infokeep%03d" % j, path2, (1, 4, 4), ops2, 5000, (), meta2)
+    # volumes with THREE FAT copies (BPB_NumFATs = 3 is valid for the FAT specification; the crate records a second FAT
+    # only when the count is exactly 2): recorded finding `three-fats`
+    for j, (fat32, nf) in enumerate(((False, 3), (True, 3), (False, 4))):
+        geo = ("f%d_%dfats" % (32 if fat32 else 16, nf), dict(fat32=fat32, lba=1, spc=1, nclusters=65525 if fat32 else 4085, nfats=nf,
+                                                             **(dict(info="ok") if fat32 else dict(root_entries=512))))
+        img, meta = fsgen.build_image(rng, geo, populate=1)
+        path, dev = env.new_image(img, "nfats%d" % j)
+        meta = dict(meta); meta["dev0"] = dev
+        hx = fsgen.hx
+        ops = ["openvol %d -> $v" % meta["slot"], "openroot $v -> $r", "open $r %s RWC -> $n" % hx("NEW.BIN"), "write $n 3000 1", "close $n",
+               "iter $r", "delete $r %s" % hx("NEW.BIN"), "closedir $r", "closevol $v"]
+        env.add_script("nfats%03d" % j, path, (1, 4, 4), ops, 5000, (), meta, raii=False)
     env.run_all(writes=True)
     bad = 0
     for sc in env.scripts:
@@ -1776,6 +1852,8 @@ def check_C16(run, replay=None):
         tr = O.Trace(sc)
         dev0 = sc["meta"]["dev0"]
         g = fatck.mount(dev0, sc["meta"]["slot"])
+        if g and g.nfats >= 3:
+            out = [p_ + ": three-fats" for p_ in out if "differs from the first" in p_][:1] + [p_ for p_ in out if "differs from the first" not in p_]
         if g and g.fat32 and not out:
             cnt0, nxt0 = fatck.info_record(dev0, g)
             free0 = g.N - len(fatck.used_clusters(dev0, g))
@@ -1824,6 +1902,6 @@ def check_C16(run, replay=None):
                     break
         if out:
             bad += report_oracle(run, env, sc, out, "FAT mirror / FAT32 free-space record violated",
-                                 known=lambda p: "stale-hint-kept" if p.endswith(": stale-hint-kept") else None)
+                                 known=lambda p: "stale-hint-kept" if p.endswith(": stale-hint-kept") else ("three-fats" if p.endswith(": three-fats") else None))
     common_tail(run, env, run.coverage.get("theorems", []))
     return finish(run, env, "C16", "allocation/truncation/deletion histories on volumes with 1 and 2 FATs and information sectors starting correct, unknown, stale-zero, stale-high, out-of-range hint; oracle = byte equality of every FAT copy after each call that wrote, stored free count delta == free-entry delta since mount after flush/close/volume close, hint unknown or inside the volume, no panic")
